@@ -19,7 +19,52 @@ ASSUMPTIONS = ["reference definitions are the class docstrings / documented beha
                "floats are dyadic or compared with relative tolerance 1e-9; transcendental functions are compared numerically"]
 
 
+# ---- chords as lists (implementation-only oracle) -----------------------------------------------------------------------
+# The model's values are numbers, rests and tuples; chords also arrive as LISTS (a PSequence of lists, Chord.semitones, the
+# result of an array / dict lookup).  "Scalar reduction": the mean / the first element of a chord, whichever sequence type
+# carries it; scalars and rests pass through.
+
+def list_chord_cases(ctx):
+    from fractions import Fraction
+    from .. import common
+    common.ensure_repo_on_path()
+    import isobar as iso
+    r = ctx.rng
+    for i in range(ctx.scale(150, 5000)):
+        method = r.choice(["mean", "first"])
+        rows, exp = [], []
+        for _ in range(r.randint(1, 6)):
+            k = r.random()
+            if k < 0.2:
+                x = r.choice([r.randint(-9, 9), None, 2.5])
+                rows.append(x)
+                exp.append(x)
+            else:
+                vals = [r.choice([r.randint(-9, 9), r.randint(-9, 9) / 2]) for _ in range(r.randint(1, 5))]
+                rows.append(list(vals) if r.random() < 0.6 else tuple(vals))
+                exp.append(vals[0] if method == "first" else float(sum(Fraction(v) for v in vals) / len(vals)))
+        src = r.choice(["sequence", "array-index", "dict-key"])
+        if src == "sequence":
+            inp = iso.PSequence(list(rows), 1)
+        elif src == "array-index":
+            inp = iso.PArrayIndex(list(rows), iso.PSeries(0, 1, len(rows)))
+        else:
+            inp = iso.PDictKey(iso.PDict({"chord": iso.PSequence(list(rows), 1)}), "chord")
+        try:
+            got = iso.PScalar(inp, method).all()
+        except Exception as ex:
+            got = "raised %s" % type(ex).__name__
+        ctx.case(("list-chords", method, src, repr(rows)), nontrivial=any(isinstance(x, list) for x in rows), validated=False,
+                 sample={"part": "list chords", "method": method, "source": src, "rows": repr(rows)[:160]})
+        ctx.count("list-chords:" + method, "list-chords-source:" + src)
+        if got != exp or (isinstance(got, list) and [type(x) for x in got] != [type(x) for x in exp]):
+            ctx.violation("C10:scalar-reduction:list-chord",
+                          "PScalar(%s of %s, %r) yields %s, the reduction of each chord is %s" % (src, rows, method, got, exp),
+                          {"suite": "c10-lists", "method": method, "source": src, "rows": repr(rows), "expected": repr(exp)})
+
+
 def run(ctx):
+    list_chord_cases(ctx)
     classes = pat_props.focus_classes(lambda c: not c.stochastic)
     n_cases = ctx.scale(3000, 300000)
     scripts, meta = [], {}
